@@ -589,6 +589,8 @@ def set_default_bc(
     if bc_data is None:
         bc_data = default
     elif isinstance(bc_data, dict) and not _is_local_bc_data(bc_data):
-        # set default when boundary conditions for axes are specified
+        # set default when boundary conditions for axes are specified; we use a copy to
+        # not modify the dictionary supplied by the caller
+        bc_data = dict(bc_data)
         bc_data.setdefault("*", default)
     return bc_data
